@@ -31,6 +31,7 @@ type c16Piece struct {
 	RegionOK  bool   `json:"regionOK"`
 	Secs      []int  `json:"secs"`
 	Trailing  int    `json:"trailing"`  // sections found after the content region (subset / epoch nodes)
+	TrailOK   bool   `json:"trailok"`   // the bytes after the content region are well-formed CAR sections up to the end of the file
 	TrailOrig int    `json:"trailorig"` // ... of which are objects of the original CAR (must be none: every object is in one piece)
 }
 
@@ -288,8 +289,8 @@ func TestVerifC16Split(t *testing.T) {
 				pc.HdrActual = hl + uint64(n)
 				if p.HeaderSize+p.ContentSize <= uint64(len(pb)) {
 					pc.Secs, pc.RegionOK = c16walk(pb[p.HeaderSize:p.HeaderSize+p.ContentSize], ids)
-					tr, _ := c16walk(pb[p.HeaderSize+p.ContentSize:], ids)
-					pc.Trailing = len(tr)
+					tr, trok := c16walk(pb[p.HeaderSize+p.ContentSize:], ids)
+					pc.Trailing, pc.TrailOK = len(tr), trok
 					for _, id := range tr {
 						if id != 0 {
 							pc.TrailOrig++
